@@ -97,6 +97,15 @@ def configs(n, C, lay):
     out.append(("KDPseudoLabelWrapper", dict(pseudo_labels=soft), True))
     for th in (0.3, 0.45, 0.6):
         out.append(("KDPseudoLabelWrapper", dict(pseudo_labels=soft, threshold=th), True))
+    # rows whose confidence sits exactly on the threshold (uniform rows: softmax = 1/C; saturated rows: softmax = 1)
+    tied = torch.zeros(n, C)
+    for i in range(n):
+        if i % 3 == 1:
+            tied[i, lay[i]] = 200.0
+        elif i % 3 == 2:
+            tied[i, lay[i]] = 1.0
+    for th in (1.0 / C, 1.0, 0.5):
+        out.append(("KDPseudoLabelWrapper", dict(pseudo_labels=tied, threshold=th), True))
     for tau in (None, 1.0, float("inf")):
         for seed in (0, 3):
             out.append(("KDPseudoLabelWrapper", dict(pseudo_labels=soft, topk=min(2, C), tau=tau, seed=seed), True))
